@@ -37,9 +37,25 @@ def scratch_copy(repo=facts.REPO):
     return tmp, dst
 
 
-def analyse_tree(mod, prop, repo_dir, scratch, configs=("asbuilt",), base=None):
+def changed_files(patch):
+    out = set()
+    for l in open(patch):
+        if l.startswith("+++ ") or l.startswith("--- "):
+            f = l[4:].split("\t")[0].strip()
+            if f.startswith(("a/", "b/")):
+                f = f[2:]
+            if f != "/dev/null":
+                out.add(f)
+    return out
+
+
+def analyse_tree(mod, prop, repo_dir, scratch, configs=("asbuilt",), base=None, changed=None):
     """Run a property's rules on another tree; returns the Checker (not finished)."""
-    d, units = facts.build_facts(tuple(configs), repo=repo_dir, cache_root=os.path.join(scratch, "facts"), cdb_from=base)
+    reuse = None
+    if base is not None and changed is not None:
+        reuse = (os.path.dirname(base[0]), changed)
+        facts.build_facts(tuple(configs))      # make sure the facts of the unmodified tree exist for these configurations
+    d, units = facts.build_facts(tuple(configs), repo=repo_dir, cache_root=os.path.join(scratch, "facts"), cdb_from=base, reuse=reuse)
     progs = {c: facts.Program(d, c) for c in configs}
     ck = report.Checker(prop, "thorough", 0)
     mod.run(ck, progs)
@@ -72,7 +88,7 @@ def run_one(mod, prop, entry, base):
             return "stale", "patch does not apply to the current tree: " + p.stdout.strip()[:200]
         configs = tuple(entry.get("configs", ["asbuilt"]))
         try:
-            ck = analyse_tree(mod, prop, dst, tmp, configs, base)
+            ck = analyse_tree(mod, prop, dst, tmp, configs, base, changed_files(patch))
         except facts.AnalysisBroken as e:
             if entry["kind"] == "M" and entry.get("expect") == "BROKEN":
                 return "ok", "analysis refuses the mutated tree: %s" % str(e)[:200]
@@ -91,14 +107,27 @@ def run_one(mod, prop, entry, base):
         shutil.rmtree(tmp, ignore_errors=True)
 
 
+def _job(args):
+    import importlib
+    prop, e, base = args
+    mod = importlib.import_module("rsv.props." + prop)
+    try:
+        return run_one(mod, prop, e, base)
+    except Exception as ex:     # noqa: BLE001 - a crash of the checker on a mutant is a checker defect
+        import traceback
+        return "WRONG", "checker crashed: %s" % traceback.format_exc()[-600:]
+
+
 def run(ck, prop, mod, seed):
+    import multiprocessing
     ents = [e for e in catalog() if e["property"] == prop]
     random.Random(seed).shuffle(ents)
     d, _ = facts.build_facts(("asbuilt",))
     base = (os.path.join(d, "cdb"), facts.REPO)
     wrong = []
-    for e in ents:
-        st, detail = run_one(mod, prop, e, base)
+    with multiprocessing.get_context("fork").Pool(min(8, max(1, len(ents)))) as pool:
+        results = pool.map(_job, [(prop, e, base) for e in ents], chunksize=1)
+    for e, (st, detail) in zip(ents, results):
         ck.selfcheck.append({"mutant": e["file"], "kind": e["kind"], "expect": e.get("expect"), "status": st, "detail": detail})
         if st == "WRONG":
             wrong.append("%s: %s" % (e["file"], detail))
